@@ -193,7 +193,7 @@ func init() {
 		wide := e.bigField(st, p, "bigwide").T
 		// for values >= 2^256 the model gives an unconstrained fresh slice
 		fr2 := c.Fresh("bigbytes", smt.BV(SliceW))
-		e.assume(st, e.wellFormed(fr2, types.NewSlice(types.Typ[types.Uint8]), st.Alloc))
+		e.assume(st, e.wellFormed(fr2, types.NewSlice(types.Typ[types.Uint8]), st))
 		return &Val{T: c.Ite(wide, fr2, e.mkSlice(obj, c.BVOp("bvsub", e.bv64(32), bl), bl, bl))}
 	})
 	reg("math/big.NewInt", func(e *Enc, fr *Frame, st *State, a []*Val, _ []types.Type, pos token.Pos) *Val {
